@@ -52,7 +52,19 @@ func c09Gen(rng *rand.Rand) c09Prog {
 	k := int64(2 + rng.Intn(4))
 	lim := int64(1 + rng.Intn(6))
 	thr := int64(rng.Intn(12))
-	switch rng.Intn(9) {
+	switch rng.Intn(11) {
+	case 9, 10: // for-in loops inside two sibling blocks and in the parent, all running at once
+		n := 24 + int(lim)*4
+		var elems []string
+		sum := int64(0)
+		for i := 1; i <= n; i++ {
+			elems = append(elems, fmt.Sprint(i))
+			sum += int64(i)
+		}
+		xs := "[" + strings.Join(elems, ", ") + "]"
+		src := fmt.Sprintf("@ GET /t {\n  $ xs = %s\n  $ f1 = async {\n    $ s = 0\n    for x in xs {\n      for y in xs {\n        s = s + x * %d\n      }\n    }\n    > s\n  }\n  $ f2 = async {\n    $ t = 0\n    for u in xs {\n      for v in xs {\n        t = t + v + %d\n      }\n    }\n    > t\n  }\n  $ p = 0\n  for z in xs {\n    for w in xs {\n      p = p + z\n    }\n  }\n  $ r2 = await f2\n  $ r1 = await f1\n  > {r1: r1, r2: r2, p: p}\n}\n", xs, a, b)
+		nn := int64(n)
+		return c09Prog{src, map[string]interface{}{"r1": sum * nn * a, "r2": sum*nn + nn*nn*b, "p": sum * nn}, "for-loops-in-sibling-blocks-and-parent"}
 	case 6: // block spawned inside an if body; the parent then assigns the enclosing variable
 		src := fmt.Sprintf("@ GET /t {\n  $ a = %d\n  $ f = async {\n    > 0\n  }\n  if a > 0 {\n    f = async {\n      $ i = 0\n      while i < %d {\n        i = i + 1\n      }\n      > a * %d\n    }\n    a = a + 100\n  }\n  a = a + 1000\n  $ r = await f\n  > {r: r, a: a}\n}\n", a, 50+lim*40, k)
 		return c09Prog{src, map[string]interface{}{"r": a * k, "a": a + 1100}, "spawn-in-if"}
